@@ -188,7 +188,8 @@ type opResult struct {
 	beforeA   map[int][]byte
 	beforeB   map[int][]byte
 	panicked  string
-	fromClose bool // the error came out of io.ReadCloser.Close (background task error, not prefixable)
+	hung      []string // cput: "<side> <put index>" of the Puts that were made to wait for cancellation
+	fromClose bool     // the error came out of io.ReadCloser.Close (background task error, not prefixable)
 }
 
 func atoi(s string) int { v, _ := strconv.Atoi(s); return v }
@@ -236,6 +237,48 @@ func (s *sutA) run(w []string) (res opResult) {
 		}
 	case "put":
 		if err := s.ba11.Put(ctx, s.u.digests[atoi(w[1])], bufferOf(s.u.valBytes(atoi(w[1]), atoi(w[2])))); err != nil {
+			fail(err)
+		} else {
+			res.reply = "ok"
+		}
+	case "cput":
+		// "cput <k> <v> <A|B|AB>": an upload whose caller gives up (cancels its
+		// context) while the named replicas are still writing; a replica not
+		// named has finished by then.
+		k := atoi(w[1])
+		cctx, cancel := context.WithCancel(ctx)
+		for _, side := range []string{"A", "B"} {
+			if strings.Contains(w[3], side) {
+				rb := s.side(side)
+				if _, scripted := rb.faults[fmt.Sprintf("put#%d", rb.cnt["put"])]; !scripted {
+					rb.hangPut[rb.cnt["put"]] = true
+					res.hung = append(res.hung, fmt.Sprintf("%s %d", side, rb.cnt["put"]))
+				}
+			}
+		}
+		doneA, doneB := s.A.putsDone, s.B.putsDone
+		errc := make(chan error, 1)
+		go func() {
+			errc <- s.ba11.Put(cctx, s.u.digests[k], bufferOf(s.u.valBytes(k, atoi(w[2]))))
+		}()
+		// cancel once every replica has either finished or is blocked
+		deadline := time.Now().Add(2 * time.Second)
+		for time.Now().Before(deadline) {
+			s.A.mu.Lock()
+			a := s.A.putsDone > doneA || s.A.blocked > 0
+			s.A.mu.Unlock()
+			s.B.mu.Lock()
+			b := s.B.putsDone > doneB || s.B.blocked > 0
+			s.B.mu.Unlock()
+			if a && b {
+				break
+			}
+			time.Sleep(20 * time.Microsecond)
+		}
+		cancel()
+		err := <-errc
+		s.A.blocked, s.B.blocked = 0, 0
+		if err != nil {
 			fail(err)
 		} else {
 			res.reply = "ok"
